@@ -608,6 +608,20 @@ impl<F: Read + Write + Seek> Package<F> {
                         );
                     }
                 }
+                if let Some(values) = column.enum_values() {
+                    // The values are stored as one semicolon-separated string.
+                    for value in values.iter() {
+                        if value.is_empty() || value.contains(';') {
+                            invalid_input!(
+                                "Column {:?} has the enumeration value {:?}, \
+                                 which cannot be stored (values must be \
+                                 non-empty and must not contain ';')",
+                                name,
+                                value
+                            );
+                        }
+                    }
+                }
                 if column_names.contains(name) {
                     invalid_input!(
                         "Cannot create a table with multiple columns with the \
